@@ -833,9 +833,79 @@ func C19(p *an.Prog, r *an.Report) {
 	c19TypeParam(p, r, "signature", []string{"signature.ReadSignature", "signature.NewSignature", "signature.NewSignatureFromBytes", "signature.SignatureSize"}, "sigType", an.IvRange(-70000, 140000))
 	c19TypeParam(p, r, "keytypes", []string{"certificate.BuildKeyTypePayload", "certificate.(*CertificateBuilder).WithKeyTypes"}, "signingType", an.IvRange(-70000, 140000))
 	c19TypeParam(p, r, "keytypes", []string{"certificate.BuildKeyTypePayload", "certificate.(*CertificateBuilder).WithKeyTypes"}, "cryptoType", an.IvRange(-70000, 140000))
+	c19BuilderState(p, r)
 	nk := c19KeyTypeEncoders(p, r)
 	r.Floor("key-type payload encoders", nk, 3)
 	c19SharedCore(p, r, "key_certificate.NewKeyCertificate", "key_certificate.KeyCertificateFromCertificate", 1)
 	c19TwinSerializers(p, r)
 	c01Block(p, r, "C19.R1")
+}
+
+// c19BuilderState (K2): the certificate builder agrees with the direct constructors only if the
+// payload it emits is built from the key types whenever key types are set and no explicit payload
+// was requested — whatever an earlier Build() or WithPayload() left in the builder. Build() is
+// evaluated on a builder in exactly that state with a non-empty stale payload: every successful
+// path must have called buildKeyTypePayload.
+func c19BuilderState(p *an.Prog, r *an.Report) {
+	build := p.Func("certificate.(*CertificateBuilder).Build")
+	if build == nil {
+		r.Fail("C19.K2: anchor certificate.(*CertificateBuilder).Build not found")
+		return
+	}
+	st, ok := an.Deref(build.Params[0].Type()).Underlying().(*types.Struct)
+	if !ok {
+		r.Fail("C19.K2: CertificateBuilder is not a struct")
+		return
+	}
+	want := map[string]an.AV{
+		"certType":    {K: an.KInt, I: 5},
+		"payload":     {K: an.KPos, Tag: "stale"},
+		"payloadSet":  {K: an.KBool, B: false},
+		"signingType": {K: an.KNonNil, Tag: "set"},
+		"cryptoType":  {K: an.KNonNil, Tag: "set"},
+	}
+	el := make([]an.AV, st.NumFields())
+	found := 0
+	for i := 0; i < st.NumFields(); i++ {
+		if av, ok := want[st.Field(i).Name()]; ok {
+			el[i] = av
+			found++
+		}
+	}
+	if found != len(want) {
+		r.Fail("C19.K2: CertificateBuilder no longer has the fields certType/payload/payloadSet/signingType/cryptoType (%d of %d found)", found, len(want))
+		return
+	}
+	store := []an.AV{{K: an.KStruct, Elems: el}}
+	ev := &an.PEval{P: p, Domain: an.IvAll(), MaxPaths: 20000, MaxSteps: 400000, LoopOK: true, MaxDepth: 8, InitStore: store, NoInlineInHavoc: true,
+		Trap: func(ssa.Instruction, string, []string) {},
+		Inline: func(f *ssa.Function) bool {
+			return an.InLib(f) && strings.HasSuffix(an.FnPkgPath(f), "/certificate") && f.Signature.Recv() != nil && len(f.Blocks) > 0
+		},
+		OnCall: func(ev *an.PEval, call *ssa.Call, callee *ssa.Function, args []an.AV) (an.AV, bool) {
+			if callee != nil && callee.Name() == "buildKeyTypePayload" {
+				ev.Note("key-type-payload-built")
+				return an.AV{K: an.KPos, Tag: "key-type-payload"}, true
+			}
+			return an.AV{}, false
+		}}
+	outs, err := ev.Run(build, []an.AV{an.PtrToCell(0)})
+	if err != nil {
+		r.Ob("C19.K2", "(*CertificateBuilder).Build/stale-payload", p.FnPos(build), an.Undecided, "Build could not be evaluated: "+err.Error())
+		return
+	}
+	ei := an.ErrIndex(build)
+	var bad []string
+	succ := 0
+	for _, o := range outs {
+		if o.Panic || o.ErrIs(ei) == 2 {
+			continue
+		}
+		succ++
+		if !o.HasNote("key-type-payload-built") {
+			bad = append(bad, fmt.Sprintf("a successful path (return at %s) keeps the payload left in the builder instead of building it from the key types: %s", p.Pos(o.RetPos), strings.Join(tail(o.Trail, 3), " | ")))
+		}
+	}
+	r.Check(len(bad) == 0 && succ > 0, "C19.K2", "(*CertificateBuilder).Build/stale-payload", p.FnPos(build),
+		"with key types set and no explicit payload, Build() always derives the payload from the key types (a reused builder agrees with the direct constructors)", append(uniq(bad), fmt.Sprintf("%d successful paths", succ))...)
 }
